@@ -708,6 +708,7 @@ def _run_module(r, rng, n, inj, Mod, IDLE, BUSY, ERROR):
         active_from = None
         ok = True
         inject = rng.random() < 0.6
+        stop_mark = None      # length of the step log when the last stop request returned (None: a start came later)
         for oi, op in enumerate(ops + ['poll'] * SETTLE):
             try:
                 if op == 'poll':
@@ -717,6 +718,9 @@ def _run_module(r, rng, n, inj, Mod, IDLE, BUSY, ERROR):
                         k = rng.randint(1, 12)
                         ops[oi] = f'{op}+poll@{k}' if oi < len(ops) else op
                         inj.arm(m, k)
+                    sm_ = m._state_machine
+                    before_stop = ('cleaning-up' if sm_.cleanup_reason is not None and sm_.is_active else 'running' if sm_.is_active else 'idle') + \
+                        '-with-pending-' + (type(sm_.next_task).__name__.lower() if sm_.next_task is not None else 'nothing')
                     try:
                         if op == 'start':
                             m.write_target(rng.choice([1.0, -1.0]))
@@ -727,11 +731,23 @@ def _run_module(r, rng, n, inj, Mod, IDLE, BUSY, ERROR):
                     finally:
                         if inj.finish():
                             op = 'poll-during-' + ('stop' if op == 'stop' else 'start')     # write_target and go both call start_machine
+                    # the most recent request wins: after a stop no state of a run requested earlier is executed any more
+                    # (only the cleanup of the interrupted run), until something is started again
+                    stop_mark = len(log) if op == 'stop' else None
+                    stop_state = before_stop
             except Exception as e:
                 r.violation('C14/module/raises', f'{op} raised {type(e).__name__}: {e}'[:200],
                             {'kind': 'module', 'script': script0, 'ops': ops})
                 ok = False
                 break
+            if stop_mark is not None:
+                r.count('inv_module_nothing_runs_after_stop')
+                late = [e for e in log[stop_mark:] if e[0] == 'S' and e[1] in ('a', 'b')]
+                if late:
+                    r.violation(f'C14/module/state-runs-after-stop/stop-while-{stop_state}', f'after the stop request (and no start since) the state function {late[0][1]} was executed: {log[stop_mark:][:5]}',
+                                {'kind': 'module', 'script': script0, 'ops': ops, 'slow_cleanup': m.slow_cleanup})
+                    ok = False
+                    break
             st = m.status
             active = m._state_machine.is_active or m._state_machine.next_task is not None and \
                 type(m._state_machine.next_task).__name__ == 'Start'
